@@ -278,6 +278,131 @@ fn check_exhausted<M: ModelSet>(run: &mut Run, exhausted: bool, msg: &Msg<M>, wu
     true
 }
 
+/// Batch encode forms of the range encoder against the per-symbol loop, and the decoding
+/// iterators of the range decoder consumed through iterator methods that skip or discard
+/// (`count`, `last`, `nth`, `skip`, `step_by`, `fold`): whatever the iterator is asked, it
+/// must leave the decoder exactly after the symbols it covered (first in, first out).
+fn adaptor_case<W, S, Pr, const P: usize>(run: &mut Run, rng: &mut Rng)
+where
+    W: Num + Into<S> + AsPrimitive<Pr>,
+    S: Num + AsPrimitive<W>,
+    Pr: Num + Into<W>,
+{
+    use constriction::stream::{Decode, Encode};
+    run.count("iterator_adaptor_cases", 1);
+    run.h(9 << 60 | W::NBITS as u64 * 1000 + S::NBITS as u64 ^ (P as u64) << 20);
+    let m = TableModel::<Pr, P>::new(gen_cdf(rng, P as u32, if run.small { 8 } else { 40 }));
+    let k = rng.usize_in(2, if run.small { 12 } else { 80 });
+    let syms: Vec<usize> = (0..k).map(|_| pick_symbol(rng, &m.cdf)).collect();
+    for &x in &syms {
+        run.h(x as u64);
+    }
+    let desc = format!("RANGE W={} S={} P={P} iid message {:?} cdf {:?}", W::NAME, S::NAME, syms, m.cdf);
+    run.note(|| desc.clone());
+    let mut enc = RangeEncoder::<W, S>::new();
+    let form = rng.below(4);
+    let r = match form {
+        0 => enc.encode_iid_symbols(&syms, &m).map_err(|e| format!("{e:?}")),
+        1 => enc.encode_symbols(syms.iter().map(|&x| (x, &m))).map_err(|e| format!("{e:?}")),
+        2 => enc.try_encode_symbols(syms.iter().map(|&x| Ok::<_, ()>((x, &m)))).map_err(|e| format!("{e:?}")),
+        _ => syms.iter().try_for_each(|&x| enc.encode_symbol(x, &m)).map_err(|e| format!("{e:?}")),
+    };
+    if let Err(e) = r {
+        run.violation("batch-form", "C02/batch-encode-failed", format!("{desc} :: batch encode form {form} failed: {e}"));
+        return;
+    }
+    let mut twin = RangeEncoder::<W, S>::new();
+    for &x in &syms {
+        twin.encode_symbol(x, &m).expect("twin encode");
+    }
+    let words = enc.into_compressed().unwrap_infallible();
+    if words != twin.into_compressed().unwrap_infallible() {
+        run.violation("batch-form", "C02/batch-form-diverges", format!("{desc} :: batch encode form {form} produced other words than the per-symbol loop"));
+        return;
+    }
+    let mut d = RangeDecoder::<W, S, _>::from_compressed(words.clone()).unwrap_infallible();
+    let a = rng.usize_in(1, k);
+    let kind = rng.below(7);
+    macro_rules! fail {
+        ($($arg:tt)*) => {{
+            run.violation("iterator-adaptor", "C02/iterator-adaptor", format!("{desc} :: first {a} symbols through adaptor kind {kind}: {}", format!($($arg)*)));
+            return;
+        }};
+    }
+    match kind {
+        0 => {
+            let n = d.decode_iid_symbols(a, &m).count();
+            if n != a {
+                fail!("count() = {n}");
+            }
+        }
+        1 => {
+            let l = d.decode_iid_symbols(a, &m).last().map(|r| r.ok());
+            if l != Some(Some(syms[a - 1])) {
+                fail!("last() = {l:?}, expected {}", syms[a - 1]);
+            }
+        }
+        2 => {
+            let x = d.decode_symbols(std::iter::repeat(&m).take(a)).nth(a - 1).map(|r| r.ok());
+            if x != Some(Some(syms[a - 1])) {
+                fail!("nth({}) = {x:?}, expected {}", a - 1, syms[a - 1]);
+            }
+        }
+        3 => {
+            let j = rng.usize_in(0, a);
+            let v: Vec<Option<usize>> = d.decode_iid_symbols(a, &m).skip(j).map(|r| r.ok()).collect();
+            let e: Vec<Option<usize>> = syms[j..a].iter().map(|&x| Some(x)).collect();
+            if v != e {
+                fail!("skip({j}) yields {v:?}, expected {e:?}");
+            }
+        }
+        4 => {
+            let st = rng.usize_in(2, 3);
+            let v: Vec<Option<usize>> = d.try_decode_symbols(std::iter::repeat(Ok::<_, ()>(&m)).take(a)).step_by(st).map(|r| r.ok()).collect();
+            let e: Vec<Option<usize>> = syms[..a].iter().step_by(st).map(|&x| Some(x)).collect();
+            if v != e {
+                fail!("step_by({st}) yields {v:?}, expected {e:?}");
+            }
+        }
+        5 => {
+            let n = d.decode_iid_symbols(a, &m).fold(0usize, |acc, _| acc + 1);
+            if n != a {
+                fail!("fold counted {n}");
+            }
+        }
+        _ => {
+            let n = d.decode_symbols(std::iter::repeat(&m).take(a)).enumerate().count();
+            if n != a {
+                fail!("enumerate().count() = {n}");
+            }
+        }
+    }
+    // the decoder now stands after exactly `a` symbols
+    let rest: Vec<Option<usize>> = d.decode_iid_symbols(k - a, &m).map(|r| r.ok()).collect();
+    let e: Vec<Option<usize>> = syms[a..].iter().map(|&x| Some(x)).collect();
+    if rest != e {
+        fail!("the symbols after them then decode as {rest:?}, expected {e:?}");
+    }
+    if !d.maybe_exhausted() {
+        fail!("decoder not maybe_exhausted() after all {k} symbols");
+    }
+    run.nontrivial();
+    run.describe(|| desc.clone());
+}
+
 pub fn case(run: &mut Run, rng: &mut Rng) {
+    if rng.chance(1, 6) {
+        let combos: &[fn(&mut Run, &mut Rng)] = &[
+            adaptor_case::<u8, u16, u8, 8>,
+            adaptor_case::<u8, u32, u8, 5>,
+            adaptor_case::<u16, u32, u16, 12>,
+            adaptor_case::<u16, u64, u16, 16>,
+            adaptor_case::<u32, u64, u32, 24>,
+            adaptor_case::<u32, u64, u32, 32>,
+            adaptor_case::<u64, u128, u32, 17>,
+        ];
+        let k = rng.below(combos.len() as u64) as usize;
+        return combos[k](run, rng);
+    }
     range_rows!(run, rng, case_row)
 }
